@@ -108,6 +108,22 @@ def _cfg_both():
     return [{"rows": [_ins(a, 1, 1)], "cols": [_ins(b, 1, "top")]} for a in SMALL for b in SMALL]
 
 
+def _cfg_styles(dim):
+    """plain subtotals written old style (`args`), new style (`kwargs.positive`), and with BOTH present
+    (kwargs wins); differences only exist in kwargs style"""
+    out = []
+    for i, sp in enumerate(SMALL):
+        k = _ins(sp, 1, ANCHORS[i % 3])
+        out.append({dim: [k]})
+        if not sp[1] and sp[0]:
+            a = subtotal("s1", sp[0], anchor=ANCHORS[i % 3], sid=1, style="args")
+            out.append({dim: [a]})
+            both = dict(k)
+            both["args"] = [3]                     # ignored: kwargs.positive takes precedence
+            out.append({dim: [both]})
+    return out
+
+
 SPACES = {
     # name: (schema, configs, quickN, thoroughN)
     "arith_rows_cat_x_cat": ("cat_x_cat", _cfg_single("rows"), 1, 3),
@@ -119,6 +135,10 @@ SPACES = {
     "arith_rows_ca": ("ca_cats_x_items", _cfg_small("rows"), 2, 3),
     "arith_num_rows": ("num_cat_x_cat", _cfg_small("rows"), 2, 3),
     "arith_numarr_cols": ("numarr_x_cat", _cfg_small("cols"), 2, 3),
+    "styles_rows": ("cat_x_cat", _cfg_styles("rows"), 2, 3),
+    "view_rows": ("cat_x_cat", _cfg_styles("rows"), 2, 3),          # same lists defined on the variable view
+    "view_cols": ("cat_x_cat_T", _cfg_styles("cols"), 2, 3),
+    "view_strand": ("cat_1d", _cfg_styles("rows"), 2, 4),
     "pair_rows_cat_x_cat": ("cat_x_cat", _cfg_pair("rows"), 1, 2),
     "pair_strand": ("cat_1d", _cfg_pair("rows"), 2, 3),
     "both_cat3_x_cat3": ("cat3_x_cat3", _cfg_both(), 1, 2),
@@ -153,11 +173,26 @@ def spaces(tier):
     return out
 
 
+_VIEW_CACHE = {}
+
+
 def _unpack(space, state):
     sname, cfgs, _, _ = SPACES[space]
     sch = SCHEMAS[sname]
     data = [PROFILES[sname][i] for i in state[0]]
-    return sch, data, cfgs[state[1]]
+    cfg = cfgs[state[1]]
+    if space.startswith("view_"):
+        key = (space, state[1])
+        if key not in _VIEW_CACHE:
+            from mc.model import CatVar
+            which = "rows" if cfg.get("rows") else "cols"
+            vi = sch.dims[0 if which == "rows" else 1][1]
+            vars_ = list(sch.vars)
+            v = vars_[vi]
+            vars_[vi] = CatVar(v.alias, v.cats, view_insertions=[dict(i) for i in cfg[which]])
+            _VIEW_CACHE[key] = Schema(sch.name, vars_, sch.dims, weighted=sch.weighted, numeric=sch.numeric)
+        sch = _VIEW_CACHE[key]
+    return sch, data, cfg
 
 
 def detail(space, state):
@@ -268,7 +303,7 @@ def _dim_var(sch, which):
 def check(space, state):
     sch, data, cfg = _unpack(space, state)
     resp = tabulate(sch, data)
-    cube = Cube(resp, transforms=transforms_for(cfg), population=1000)
+    cube = Cube(resp, transforms=({} if space.startswith("view_") else transforms_for(cfg)), population=1000)
     part = cube.partitions[0]
     kind, _lbl, orc = partition_oracles(sch, data)[0]
     T = _V()
@@ -451,7 +486,9 @@ def _check_merge(T, sch, data, cfg, part, orc, rs, cs, spos_r, spos_c, bpos_r, b
         return
     ids = [axis.ids[a] for a in add]
     data2 = _recode(sch, data, vi, ids, item=True if is_ca else None)
-    cube2 = Cube(tabulate(sch, data2), population=1000)
+    # the reference run has NO insertions at all (also none on the variable view)
+    plain = SCHEMAS.get(sch.name, sch)
+    cube2 = Cube(tabulate(plain, data2), population=1000)
     p2 = cube2.partitions[0]
     orc2 = partition_oracles(sch, data2)[0][2]
     k0 = add[0]
@@ -572,7 +609,7 @@ def _check_strand(T, sch, data, cfg, part, orc):
         ids = [orc.rows.ids[a] for a in add]
         vi = sch.dims[0][1]
         data2 = _recode(sch, data, vi, ids)
-        p2 = Cube(tabulate(sch, data2), population=1000).partitions[0]
+        p2 = Cube(tabulate(SCHEMAS.get(sch.name, sch), data2), population=1000).partitions[0]
         for name in STRAND_1D:
             a = np.asarray(getattr(part, name), dtype=float)
             b = np.asarray(getattr(p2, name), dtype=float)
